@@ -382,18 +382,45 @@ func (env *Env) pkgConst(name string) (TV, bool) {
 	if c, ok := obj.(*types.Const); ok {
 		return TV{env.e.constTerm(c.Val(), c.Type()), c.Type()}, true
 	}
+	if v, ok := obj.(*types.Var); ok && !v.IsField() {
+		// a package-level variable: the content of its cell in the current state (same cell as in the code's loads)
+		e := env.e
+		gname := "glob_" + sanitize(p.Types.Name()+"."+name)
+		if _, ok := e.globals[gname]; !ok {
+			e.globals[gname] = e.constant(gname, "Int")
+		}
+		return TV{app("select", env.heap(e.cellHeap(v.Type())), e.globals[gname]), v.Type()}, true
+	}
 	return TV{}, false
 }
 
 func (env *Env) qualConst(pkgName, name string) (TV, bool) {
 	pp := env.e.P.resolvePkgName(pkgName)
 	p := env.e.P.byPath[pp]
+	// a package imported under that name by the package the contract belongs to takes precedence
+	if cur := env.e.P.byPath[env.pkg]; cur != nil {
+		for _, imp := range cur.Imports {
+			if imp.Name == pkgName && imp.Types != nil && imp.Types.Scope().Lookup(name) != nil {
+				p = imp
+				break
+			}
+		}
+	}
 	if p == nil {
 		return TV{}, false
 	}
 	obj := p.Types.Scope().Lookup(name)
 	if c, ok := obj.(*types.Const); ok {
 		return TV{env.e.constTerm(c.Val(), c.Type()), c.Type()}, true
+	}
+	if v, ok := obj.(*types.Var); ok && !v.IsField() {
+		// a package-level variable of another package (io.EOF): the content of its cell in the current state
+		e := env.e
+		gname := "glob_" + sanitize(p.Types.Name()+"."+name)
+		if _, ok := e.globals[gname]; !ok {
+			e.globals[gname] = e.constant(gname, "Int")
+		}
+		return TV{app("select", env.heap(e.cellHeap(v.Type())), e.globals[gname]), v.Type()}, true
 	}
 	return TV{}, false
 }
